@@ -153,6 +153,8 @@ def run(ck):
             cfg.parallel_region = 1
             cfg.parallel_level = 0 if kind.startswith("serial") else 1
             data = list(range(100, 100 + b))
+            if kind in ("list_idx", "serial_list_idx") and (size + b) % 2 == 0:
+                data = [100 + i // 3 for i in range(b)]       # a list may hold equal items: positions, not values, are handed out
             # arrays with 1-3 axes: rows are distributed, the first column identifies the row
             extra = rng_shape = ()
             if kind in ("array", "array_idx"):
@@ -303,8 +305,38 @@ def run(ck):
                     return results, tables
                 totals.append(sum(m_[0] for m_ in captured))
 
-        for h in range(ck.n(2, 8)):
-            nsite = rng.choice([2, 3, 4])
+        # the rate kernel itself on bath components whose contributions have either sign (a numerically transformed spectral density
+        # can be slightly negative at single frequencies): partial sums of one process may be negative where the total is not
+        from quantarhei.implementations.python.redfieldrates import ssRedfieldRateMatrix
+        for h in range(ck.n(3, 12)):
+            Na, Nk = rng.choice([3, 4]), rng.choice([4, 5, 7])
+            rs_ = numpy.random.RandomState(rng.randint(0, 10 ** 6))
+            KI = 0.2 + rs_.rand(Nk, Na, Na); KI = 0.5 * (KI + numpy.transpose(KI, (0, 2, 1)))
+            cc = 1.0e-3 * (0.5 + rs_.rand(Nk, Na, Na))
+            for k_ in range(1 + h % 3):
+                cc[k_, 0, 1] = -4.0e-7 / (KI[k_, 0, 1] * KI[k_, 1, 0])
+
+            def calc(Na=Na, Nk=Nk, KI=KI, cc=cc):
+                RR = numpy.zeros((Na, Na), dtype=numpy.float64)
+                we = numpy.zeros(2, dtype=numpy.int8)
+                ssRedfieldRateMatrix(Na, Nk, KI, cc, 1.0e-6, we, RR)
+                return numpy.concatenate([RR.ravel(), numpy.array(we, dtype=float)])
+            serial = calc()
+            for P in (2, 3, Nk):
+                inp = {"distributed": "ssRedfieldRateMatrix (rate kernel)", "states": Na, "bath components": Nk, "processes": P,
+                       "components with a slightly negative contribution": 1 + h % 3}
+                ck.case(("dist-kernel", Na, Nk, P, h), nontrivial=True, kind="distributed-use", api="ssRedfieldRateMatrix", size=min(P, 8))
+                try:
+                    results, tables = emulate(calc, P)
+                except Exception as e:
+                    ck.fail("raises:distributed:ssRedfieldRateMatrix", "simulated distributed run raised %r" % (e,), inp)
+                    continue
+                worst = max(float(numpy.abs(r_ - serial).max()) for r_ in results)
+                if worst > 1e-12 * max(1.0, float(numpy.abs(serial).max())):
+                    ck.fail("reduce:distributed:ssRedfieldRateMatrix", "sum-reduced rates (or warning flags) of the distributed loop differ from the serial result",
+                            inp, worst)
+        for h in range(ck.n(3, 9)):
+            nsite = rng.choice([2, 3, 4]) if h else 1        # one site: a single bath component, fewer components than processes
             tat = TimeAxis(0.0, 200, 2.0)
             with energy_units("1/cm"):
                 ms = []
